@@ -215,6 +215,14 @@ def place(w, rng, pattern, newest, older, comp, crafted):
         srvs = rng.sample(range(ns), rng.randint(1, 2))
         for sh in range(n):
             w.put(order[rng.choice(srvs)], sh, newest, how="cluster")
+    elif pattern == "privfront":
+        # every share near the front has a damaged private key; an intact share sits further back
+        for sh in range(n):
+            t = md.tampered(w, newest, sh, ["encprivkey"], rng)
+            w.put(order[sh % ns], sh, newest, t[1], t[0], t[2])
+        if rng.random() < 0.8:
+            w.put(order[rng.randrange(min(ns - 1, n + 1), ns)], rng.randrange(n), newest, how="priv_late")
+        return
     elif pattern == "competitor" and comp:
         for sh in range(n):
             w.put(order[rng.randrange(min(ns, n + 2))], sh, newest, how="comp_a")
@@ -293,7 +301,7 @@ def scenario(g, rng, idx, k, n, thorough):
         crafted.append(w.forge_resigned(rng.choice([1, 2]), w.vers[newest - 1]["seq"] + rng.choice([1, 2]), rng.random() < 0.5))
     if rng.random() < 0.2:
         crafted.append(w.forge_seqbump(newest, w.vers[newest - 1]["seq"] + 1))
-    patterns = ["front", "front", "gaps", "gaps", "late", "late", "mixed", "sparse", "dup", "cluster", "competitor", "random"]
+    patterns = ["front", "front", "gaps", "gaps", "late", "late", "mixed", "sparse", "dup", "cluster", "competitor", "random", "privfront"]
     traces = []
 
     def cut(kind):
@@ -310,14 +318,17 @@ def scenario(g, rng, idx, k, n, thorough):
         ev_layout(w)
         modes = list(MODES)
         rng.shuffle(modes)
-        for mode in modes[:rng.choice([3, 4, 5])]:
-            node = w.fresh_node(node_for(w, mode, rng))
+        chosen = modes[:rng.choice([3, 4, 5])]
+        if pattern == "privfront":
+            chosen = ["WRITE", "REPAIR"] + [m for m in chosen if m not in ("WRITE", "REPAIR")]
+        for mode in chosen:
+            node = w.fresh_node("rw" if pattern == "privfront" and mode in ("WRITE", "REPAIR") else node_for(w, mode, rng))
             orr = None if rng.random() < 0.5 else random.Random(rng.randrange(10 ** 6))
             run_update(w, node, ServerMap(), mode, True, orr, failing)
         cut("fresh:" + pattern)
         # an update on the map an earlier update left, after the grid changed / the caller marked shares bad
         for _ in range(rng.choice([1, 1, 2])):
-            m1, m2 = rng.choice(list(MODES)), rng.choice(list(MODES))
+            m1, m2 = rng.choice(list(MODES)), rng.choice(list(MODES) + ["WRITE", "WRITE"])
             kind = node_for(w, "WRITE" if "WRITE" in (m1, m2) or "REPAIR" in (m1, m2) else "READ", rng)
             node = w.fresh_node(kind)
             sm = ServerMap()
@@ -327,7 +338,13 @@ def scenario(g, rng, idx, k, n, thorough):
             change = rng.choice(["markbad", "markbad", "vanish", "replace", "corrupt", "nothing", "newfail"])
             changed = False
             if change == "markbad" and known:
-                for (sname, sh) in rng.sample(known, min(len(known), rng.choice([1, 1, 2]))):
+                if rng.random() < 0.5:
+                    # every share of one server (as Retrieve does after one of them failed validation)
+                    s1 = rng.choice(sorted({k2[0] for k2 in known}))
+                    marks = [k2 for k2 in known if k2[0] == s1]
+                else:
+                    marks = rng.sample(known, min(len(known), rng.choice([1, 1, 2])))
+                for (sname, sh) in marks:
                     srv = g.servers[sname]
                     raw = w.raw(sname, sh) or b""
                     sm.mark_bad_share(srv, sh, raw[:75])
@@ -363,7 +380,9 @@ def scenario(g, rng, idx, k, n, thorough):
     return traces
 
 
-ENCODINGS = [(2, 3, 7), (2, 3, 9), (2, 3, 12), (1, 2, 8), (2, 4, 10), (2, 3, 5), (3, 5, 14)]
+# (k, N, servers); the quick tier keeps to two encodings (one TLC run per encoding)
+ENCODINGS_QUICK = [(2, 3, 7), (2, 3, 12), (1, 2, 8), (2, 3, 9), (1, 2, 6), (2, 3, 5)]
+ENCODINGS = ENCODINGS_QUICK + [(2, 4, 10), (3, 5, 14), (2, 4, 6), (1, 3, 9)]
 
 
 def main():
@@ -382,7 +401,8 @@ def main():
     grids = {}
     for i in range(a.n):
         rng = random.Random(rng0.randrange(10 ** 9))
-        enc = ENCODINGS[i % len(ENCODINGS)] if i < len(ENCODINGS) else rng.choice(ENCODINGS)
+        encs = ENCODINGS if thorough else ENCODINGS_QUICK
+        enc = encs[i % len(encs)] if i < len(encs) else rng.choice(encs)
         if enc not in grids:
             k, n, ns = enc
             grids[enc] = Grid(os.path.join(work, "g%d_%d_%d" % enc), num_servers=ns, k=k, n=n, happy=1, seed=a.seed)
